@@ -1,7 +1,7 @@
 (* GENERATED from C06_Props.v by tools/c06.py: the theorem statements as Props, for the proof files. *)
 From Coq Require Import List NArith Bool Arith.
 From Dae.gen Require Import C06_Extracted.
-From Dae Require Import C06_Spec C06_Model C06_Async C06_Session C06_Clock.
+From Dae Require Import C06_Spec C06_Model C06_Async C06_Session C06_Clock C06_Key.
 Import ListNotations.
 Open Scope N_scope.
 
@@ -153,6 +153,19 @@ Definition C06_udp_session_never_withholds_refuted_stmt : Prop :=
     monotone h = true /\
     let '(outs, fwd, dropped, st) := run_session h in
     dropped <> [] /\ fwd ++ pending st <> map ev_data h.
+
+Definition C06_key_fingerprint_exact_stmt : Prop :=
+  forall data : bytes,
+    fingerprint data = Ok (spec_fingerprint data) /\ key_dcid data = Ok (spec_key_dcid data).
+
+Definition C06_key_fingerprint_no_oob_stmt : Prop :=
+  forall data : bytes, fingerprint data <> Err Oob /\ key_dcid data <> Err Oob.
+
+Definition C06_key_fingerprint_nonvacuous_stmt : Prop :=
+  let d := [195; 0; 0; 0; 1; 8; 1; 2; 3; 4; 5; 6; 7; 8; 2; 9; 9; 0; 0] in
+  fingerprint d = Ok (Some ([0; 0; 0; 1], [1; 2; 3; 4; 5; 6; 7; 8], [9; 9]))
+  /\ key_dcid d = Ok (Some [1; 2; 3; 4; 5; 6; 7; 8])
+  /\ fingerprint (firstn 14 d) = Ok None /\ key_dcid (firstn 14 d) = Ok (Some [1; 2; 3; 4; 5; 6; 7; 8]).
 
 Definition C06_nonvacuous_stmt : Prop :=
   let h := {| h_minor := 3; h_random := repeat 7 32%nat; h_session := [1; 2; 3]; h_suites := [19; 1; 19; 2];
